@@ -24,6 +24,9 @@ NUMKEY = {'a': decimal.Decimal('1.0'), 'b': decimal.Decimal('1.00'), 'c': decima
 
 def fields_spec(universe, wildcard=False, onlylast=False):
     aggs = NUM_AGGS if universe == 'num' else TXT_AGGS
+    if onlylast == 'defaults':
+        # every spec left to its default (source field = target name, aggregate any), given as None and as {}
+        return collections.OrderedDict([('v', None), ('o', {}), ('k', None)])
     if onlylast == 'empty':
         return collections.OrderedDict()        # join used as a pure key filter / semi-join
     if isinstance(onlylast, str) and onlylast.startswith('wild-'):
@@ -224,7 +227,10 @@ def check(case):
     viol = []
     names = out.names()
     dedup = case.get('dedup', False)
-    if isinstance(case.get('onlylast'), str) and case['onlylast'].startswith('wild-'):
+    if case.get('onlylast') == 'defaults':
+        eff = collections.OrderedDict([('v', {'name': 'v', 'aggregate': 'any'}), ('o', {'name': 'o', 'aggregate': 'any'}),
+                                       ('k', {'name': 'k', 'aggregate': 'any'})])
+    elif isinstance(case.get('onlylast'), str) and case['onlylast'].startswith('wild-'):
         agg = case['onlylast'][5:]
         eff = collections.OrderedDict([('k', {'name': 'k', 'aggregate': 'last'}), ('v', {'name': 'v', 'aggregate': agg}),
                                        ('o', {'name': 'o', 'aggregate': agg})])
@@ -331,6 +337,7 @@ def cases(tier):
                     out.append({'u': u, 'src': s, 'tgt': t, 'mode': mode, 'shape': 'list', 'spill': True})
                 out.append({'u': u, 'src': s, 'tgt': t, 'mode': 'half-outer', 'shape': 'list', 'wild': True})
                 for mode in ('inner', 'half-outer', 'full-outer'):
+                    out.append({'u': u, 'src': s, 'tgt': t, 'mode': mode, 'shape': 'list', 'onlylast': 'defaults'})
                     out.append({'u': u, 'src': s, 'tgt': t, 'mode': mode, 'shape': 'list', 'onlylast': 'empty'})
                     if u == 'num':
                         out.append({'u': u, 'src': s, 'tgt': t, 'mode': mode, 'shape': 'rownum', 'onlylast': 'empty'})
